@@ -129,11 +129,9 @@ impl Add for I64 {
             (Num(lhs), Num(rhs)) => match lhs.checked_add(rhs) {
                 Some(n) => Num(n),
                 None => {
-                    if lhs > 0 && rhs > 0 || lhs < 0 && rhs < 0 {
-                        PlusInf
-                    } else {
-                        MinusInf
-                    }
+                    // An addition only overflows if both operands have the
+                    // same sign, which is the sign of the exact result.
+                    if lhs > 0 { PlusInf } else { MinusInf }
                 }
             },
             (NaN, _) | (_, NaN) | (MinusInf, PlusInf) | (PlusInf, MinusInf) => NaN,
@@ -153,11 +151,10 @@ impl Sub for I64 {
             (Num(lhs), Num(rhs)) => match lhs.checked_sub(rhs) {
                 Some(n) => Num(n),
                 None => {
-                    if lhs > 0 && rhs < 0 || lhs < 0 && rhs > 0 {
-                        PlusInf
-                    } else {
-                        MinusInf
-                    }
+                    // A subtraction only overflows if `rhs` is non-zero and
+                    // `lhs` is zero or has the opposite sign. The exact result
+                    // then has the opposite sign of `rhs`.
+                    if rhs < 0 { PlusInf } else { MinusInf }
                 }
             },
             (NaN, _) | (_, NaN) | (MinusInf, MinusInf) | (PlusInf, PlusInf) => NaN,
